@@ -25,8 +25,8 @@ PLANS = {
     'C02': {'jobs': [J('park', W124, 4), J('park', [2], 1, 'asan')]},
     'C05': {'jobs': [J('mutex', W124, 2), J('mutexc', W124, 2), J('mutexc', [2, 4], 1, 'asan'), S('hsmutex', [2, 4], 2)]},
     'C06': {'jobs': [J('chan', W124, 4), J('chan', [2], 2, 'asan')]},
-    'C07': {'jobs': [J('dis', W124, 3), J('disrx', W124, 1), J('dis', [2], 1, 'asan')]},
-    'C08': {'jobs': [J('tmr', W124, 3), J('tmrmix', W124, 1), J('tmr', [2, 4], 1, 'asan')]},
+    'C07': {'jobs': [J('dis', W124, 3), J('disrx', W124, 1), J('dis', [2], 1, 'asan'), S('disrace', W124, 2)]},
+    'C08': {'jobs': [J('tmr', W124, 3), J('tmrmix', W124, 1), J('tmr', [2, 4], 1, 'asan'), S('tmrrace', W124, 2)]},
     'C09': {'jobs': [J('can', W124, 3), J('mutexc', [2], 1), J('semc', [1, 2], 1), J('cvc', [2], 1), J('rwc', [2], 1), J('iocan', [2], 1),
                      J('can', [2, 4], 1, 'asan'), S('hsmutex', [2], 1), S('hssem', [2], 1)]},
     'C10': {'jobs': [J('sem', W124, 2), J('semc', W124, 1), J('flag', W124, 1), J('semc', [2], 1, 'asan'), S('hssem', [2, 4], 2)]},
